@@ -201,6 +201,8 @@ class Proof:
     def find_item(self, id: ItemID) -> ProofItem:
         """Find item at the given id."""
         try:
+            if any(i < 0 for i in id.id):
+                raise IndexError  # positions are never negative
             item = self.items[id.id[0]]
             for i in id.id[1:]:
                 item = item.subproof.items[i]
